@@ -129,10 +129,11 @@ def run_t(cfg, named_items, seed, mutants=6):
     for _round in range(3):
         order = sorted(active)
         with open(os.path.join(d, 'src', 'lib.rs'), 'w') as f:
-            f.write('#![allow(warnings)]\nmod prelude;\n' + '\n'.join(mods[i] for i in order) + '\n')
+            head = '#![feature(core_intrinsics)] #![allow(internal_features)] ' if cfg == 'nightly' else ''
+            f.write(head + '#![allow(warnings)]\nmod prelude;\n' + '\n'.join(mods[i] for i in order) + '\n')
         zf = ['--features', 'z'] if cfg in ZCFGS else []
         env = dict(os.environ, CARGO_TARGET_DIR=os.path.join(runner.TARGET, 'typing-' + cfg), CARGO_NET_OFFLINE='true')
-        q = subprocess.run(['cargo', 'check', '--offline', '--message-format=json', '-q'] + zf, cwd=d, env=env,
+        q = subprocess.run(['cargo'] + (['+nightly'] if cfg == 'nightly' else []) + ['check', '--offline', '--message-format=json', '-q'] + zf, cwd=d, env=env,
                            stdout=subprocess.PIPE, stderr=subprocess.PIPE, text=True)
         found = False
         unattributed = []
